@@ -186,6 +186,8 @@ int main(int argc, char** argv) {
     }
 
     bool atLeastOneCorrectCacheName {false};
+    try
+    {
     //TODO Merge this and the preparations.cpp code
     for(std::string cacheName : cacheNames)
     {
@@ -261,6 +263,19 @@ int main(int argc, char** argv) {
         cacheNamesStr += cacheName;
         cacheNamesStr += ",";
       }
+    }
+    }
+    catch (const std::exception& e)
+    {
+      // A cache file inconsistent with the others: keep serving (the data status tells what is missing) and tell the caller
+      spdlog::error("-- error while updating caches -- {}", e.what());
+      dataStatus = transitData.getDataStatus();
+      nlohmann::json jsonResponse;
+      jsonResponse["status"] = "error";
+      jsonResponse["error"] = std::string("error while updating caches: ") + e.what();
+      response = jsonResponse.dump();
+      *serverResponse << "HTTP/1.1 200 OK\r\nAccess-Control-Allow-Origin: *\r\nContent-Type: application/json; charset=utf-8\r\nContent-Length: " << response.length() << "\r\n\r\n" << response;
+      return;
     }
 
     //Reinit some data after the update
